@@ -95,8 +95,10 @@ from .errors import (
     HookError,
     NotGitRepository,
     ObjectFormatException,
+    RefFormatError,
     UnexpectedCommandError,
 )
+from .file import FileLocked
 from .object_filters import (
     CombineFilter,
     FilterSpec,
@@ -1482,6 +1484,9 @@ class ReceivePackHandler(PackHandler):
             socket.error,
             zlib.error,
             ObjectFormatException,
+            # Another writer holds the lock of the ref: this ref fails, the
+            # others of the push are still processed and reported.
+            FileLocked,
         )
         will_send_pack = False
         zero_sha = ObjectID(b"0" * self.repo.object_format.hex_length)
@@ -1580,7 +1585,7 @@ class ReceivePackHandler(PackHandler):
                                 ref_status = b"failed to update ref"
                         except all_exceptions:
                             ref_status = b"failed to write"
-                except KeyError:
+                except (KeyError, RefFormatError):
                     ref_status = b"bad ref"
                 yield (ref, ref_status)
         else:
@@ -1615,7 +1620,7 @@ class ReceivePackHandler(PackHandler):
                                 ref_status = b"failed to update ref"
                         except all_exceptions:
                             ref_status = b"failed to write"
-                except KeyError:
+                except (KeyError, RefFormatError):
                     ref_status = b"bad ref"
                 yield (ref, ref_status)
 
